@@ -8,26 +8,36 @@ from vf.gen import pick_weighted
 from props import b16dag as D
 
 ID = "C51"
-THEOREMS = ["C51_table_consistent", "C51_reader_accepts", "C51_overflow_count_before_fix_refuted"]
+THEOREMS = ["C51_table_consistent", "C51_reader_accepts", "C51_commit_data", "C51_lookup", "C51_roundtrip", "C51_roundtrip_exact", "C51_derived",
+            "C51_time_generation_word", "C51_overflow_count_before_fix_refuted"]
 MODEL_FILES = ["CommitGraph.v"]
 MODELLED = ("plumbing/format/commitgraph: MemoryIndex.Add/HasGenerationV2, CommitData.GenerationV2Data, Encoder.Encode (prepare, "
             "chunk table, fanout, OID lookup, commit data incl. octopus edges, generation data + overflow) and the fileIndex reader "
             "(OpenFileIndex: header, size, chunk table, chunk sizes, fanout; GetCommitDataByIndex; GetHashByIndex; GetIndexByHash) in "
-            "Model/CommitGraph.v; not modelled: the SHA-1 trailer (checked by the oracle), chains (OpenFileIndexWithParent/chain.go: "
-            "exercised against git-written split graphs), commitnode_graph.go (exercised by C43)")
+            "Model/CommitGraph.v; split graphs: OpenFileIndexWithParent (hasGenerationV2 = own && parent's, minimumNumberOfHashes) and the "
+            "parent fall-through of GetCommitDataByIndex / GetHashByIndex / getHashesFromIndexes / GetIndexByHash over a chain of files "
+            "(ch_commit_data, ch_hash, ch_index_by_hash), compared with go-git on chains written by git commit-graph write --split; "
+            "not modelled: the SHA-1 trailer (checked by the oracle), chain.go's reading of the commit-graph-chain text file and "
+            "file opening (OpenChainFile/OpenChainIndex: the harness hands the layer files over in chain order), the BASE chunk "
+            "(ignored by go-git), commitnode_graph.go (exercised by C43)")
 LEVEL_NOTE = ("trusted: Coq 8.16.1 kernel; the correspondence harness; gotrans constants (parentNone, parentOctopusUsed, parentLast, "
               "chunk sizes) regenerated from the Go source on every run; theorems: chunk-table consistency of the encoder model and "
               "acceptance of its output by the reader model (header, table of contents, sizes, fanout) for all well-formed inputs; "
-              "per-commit read-back is covered by the correspondence and the read-back oracle, not by a theorem; SHA-1 trailer checked by the oracle")
+              "per-commit read-back (C51_commit_data), decode (encode g) = Ok g (C51_roundtrip) and agreement with the numbers derived "
+              "from the history by Spec/Dag.generation and Spec/DagGen2.corrected_date (C51_derived), the latter spec compared with the "
+              "numbers inside files written by the git binary on every run; SHA-1 trailer checked by the oracle")
 TRUSTED = [
     "C-impl: commitgraph.Encoder.Encode / OpenFileIndex vs Model/CommitGraph encode / dump on every case",
     "C-git: git commit-graph verify on every file go-git writes; git commit-graph write --reachable [--split] files read by go-git and compared with values derived from the commit objects",
+    "C-git (S): Spec/Dag.generation and Spec/DagGen2.corrected_date evaluated in Coq vs the CDAT/GDA2/GDO2 numbers parsed (python, independent of go-git) out of files written by git commit-graph write: spec_mismatches must be 0",
 ]
 ASSUMPTIONS = ["generation numbers given to the encoder are git's (level = 1 + max parent level, corrected date = max(ctime, 1 + max parent corrected date))"]
 RULE = ("enc: DAG (chain/diamond/octopus/random; timestamps monotone, skewed, or with one parent dated 2^31-2..2^32+5 s after its child "
-        "so that generation-v2 offsets straddle 2^31 and 2^32) materialised with git, entries added in shuffled order; dec: files written "
-        "by git commit-graph write (plain, --changed-paths, --split) plus mutated / truncated files; non-trivial = a merge or an offset "
-        ">= 2^31 (enc) / any file (dec); distinct by content")
+        "so that generation-v2 offsets straddle 2^31 and 2^32; ovf: one or two commits dated far ahead of several descendants, so that "
+        "several commits use overflow slots >= 1 interleaved in id order with commits that use none) materialised with git, entries "
+        "added in shuffled order; dec: files written by git commit-graph write (plain, --changed-paths, --split chains of 2-3 layers) "
+        "plus mutated / truncated files and chains with a mutated layer; non-trivial = a merge or an offset >= 2^31 (enc) / any file "
+        "(dec); distinct by content")
 
 BIG = [2**31 - 3, 2**31 - 2, 2**31 - 1, 2**31, 2**31 + 1, 2**32 - 3, 2**32 - 2, 2**32 - 1, 2**32, 2**32 + 5]
 
@@ -70,6 +80,12 @@ def dag_for(rng, bucket):
         par = D.shape(rng, rng.choice(["chain", "diamond", "crisscross", "random", "forest"]), k)
     if bucket == "skew":
         times = D.stamp(rng, rng.choice(["skew", "reversed", "perm", "equal"]), par)
+    elif bucket == "ovf":
+        # several overflow slots: ancestors dated >= 2^31 s ahead of a whole subgraph, other components untouched
+        par = D.shape(rng, rng.choice(["chain", "diamond", "forest", "random", "octopus"]), rng.choice([5, 6, 7, 8, 9]))
+        times = D.stamp(rng, "mono", par)
+        for p in rng.sample(range(max(2, len(par) // 2)), rng.choice([1, 1, 2])):
+            times[p] = times[p] + rng.choice(BIG + [3 * 10**9, 2**33])
     elif bucket.startswith("big"):
         times = D.stamp(rng, "mono", par)
         # one or two parents dated far in the future of their children
@@ -96,7 +112,7 @@ class Enc(Suite):
             dags = []
             repo = D.GitDags(tmp)
             for j in range(n):
-                b = pick_weighted(rng, [(3, "mono"), (2, "skew"), (2, "octopus"), (3, "big1"), (2, "big2"), (2, "fanout")])
+                b = pick_weighted(rng, [(3, "mono"), (2, "skew"), (2, "octopus"), (3, "big1"), (2, "big2"), (3, "ovf"), (2, "fanout")])
                 par, times = dag_for(rng, b)
                 repo.add(j, par, times)
                 dags.append((b, par, times))
@@ -173,6 +189,11 @@ class Enc(Suite):
             pass
         return fails
 
+    def extra(self, ctx, cases, impl, model):
+        slots = [sum(1 for e in c["entries"] if e["gen2"] - e["when"] >= 2**31) for c in cases]
+        return {"cases_with_two_or_more_overflow_slots": sum(1 for x in slots if x >= 2), "max_overflow_slots": max(slots or [0]),
+                "cases_with_octopus": sum(1 for c in cases if any(len(e["parents"]) > 2 for e in c["entries"]))}
+
     def finding_class(self, case, reason, reply):
         if reason.startswith("git commit-graph verify") and any(2**31 <= e["gen2"] - e["when"] < 2**32 for e in case["entries"]):
             return "genv2-offset-2p31-2p32-overflow-chunk"
@@ -223,25 +244,36 @@ class Dec(Suite):
             j = 0
             while len(cases) < n:
                 j += 1
-                b = pick_weighted(rng, [(3, "mono"), (2, "skew"), (2, "octopus"), (2, "big1"), (1, "big2"), (2, "fanout")])
+                b = pick_weighted(rng, [(3, "mono"), (2, "skew"), (2, "octopus"), (2, "big1"), (1, "big2"), (3, "ovf"), (2, "fanout")])
                 par, times = dag_for(rng, b)
                 root = os.path.join(tmp, "r%d" % j)
                 os.makedirs(root)
                 repo = D.one_repo(root, par, times)
                 shas = [repo.sha[(0, i)] for i in range(len(par))]
-                mode = pick_weighted(rng, [(5, "plain"), (2, "paths"), (2, "split")])
+                mode = pick_weighted(rng, [(4, "plain"), (1, "paths"), (4, "split")])
+                if mode == "split" and len(par) < 3:
+                    mode = "plain"
                 if mode == "split" and len(par) >= 3:
-                    k = rng.randrange(1, len(par))
-                    p1 = subprocess.run([D.GIT, "--git-dir", repo.dir, "commit-graph", "write", "--split=no-merge", "--stdin-commits"],
-                                        input=("\n".join(shas[:k]) + "\n").encode(), env=D.GENV, capture_output=True)
-                    p2 = subprocess.run([D.GIT, "--git-dir", repo.dir, "commit-graph", "write", "--split=no-merge", "--stdin-commits"],
-                                        input=("\n".join(shas) + "\n").encode(), env=D.GENV, capture_output=True)
+                    cuts = sorted(rng.sample(range(1, len(par)), 2 if len(par) >= 5 and rng.random() < 0.5 else 1)) + [len(par)]
+                    ok = True
+                    for k in cuts:
+                        pw = subprocess.run([D.GIT, "--git-dir", repo.dir, "commit-graph", "write", "--split=no-merge", "--stdin-commits"],
+                                            input=("\n".join(shas[:k]) + "\n").encode(), env=D.GENV, capture_output=True)
+                        ok = ok and pw.returncode == 0
                     cdir = os.path.join(repo.dir, "objects", "info", "commit-graphs")
                     chain = os.path.join(cdir, "commit-graph-chain")
-                    if p1.returncode or p2.returncode or not os.path.exists(chain):
+                    if not ok or not os.path.exists(chain):
                         continue
-                    files = [rle(open(os.path.join(cdir, "graph-%s.graph" % h.strip()), "rb").read()) for h in open(chain)]
-                    cases.append({"op": "chain", "files": files, "par": par, "times": times, "shas": shas, "bucket": "dec/split/" + b})
+                    raw = [open(os.path.join(cdir, "graph-%s.graph" % h.strip()), "rb").read() for h in open(chain)]
+                    cases.append({"op": "chain", "files": [rle(x) for x in raw], "par": par, "times": times, "shas": shas, "cuts": cuts,
+                                  "bucket": "dec/split%d/%s" % (len(raw), b)})
+                    if len(cases) < n and len(raw) >= 2:
+                        # a chain with one damaged layer (no oracle: only impl = model)
+                        j2 = rng.randrange(len(raw))
+                        bad = list(raw)
+                        bad[j2] = mutate(rng, raw[j2])
+                        cases.append({"op": "chain", "files": [rle(x) for x in bad], "bucket": "dec/split-mutated"})
+                    shutil.rmtree(root, ignore_errors=True)
                     continue
                 args = ["commit-graph", "write", "--reachable"] + (["--changed-paths"] if mode == "paths" else [])
                 rc, _, err = repo.git(*args)
@@ -250,7 +282,7 @@ class Dec(Suite):
                     continue
                 data = open(path, "rb").read()
                 cases.append({"op": "decode", "file": rle(data), "par": par, "times": times, "shas": shas, "bucket": "dec/git/%s/%s" % (mode, b)})
-                for _ in range(4):
+                for _ in range(2):
                     if len(cases) < n:
                         cases.append({"op": "decode", "file": rle(mutate(rng, data)), "bucket": "dec/mutated"})
                 shutil.rmtree(root, ignore_errors=True)
@@ -261,6 +293,8 @@ class Dec(Suite):
     def model_expr(self, c):
         if c["op"] == "decode":
             return "c51_decode [%s]" % "; ".join('(%d%%N, "%s")' % (n, w) for n, w in c["file"])
+        if c["op"] == "chain":
+            return "c51_chain [%s]" % "; ".join("[%s]" % "; ".join('(%d%%N, "%s")' % (n, w) for n, w in f) for f in c["files"])
         return None
 
     def nontrivial(self, c):
@@ -273,7 +307,8 @@ class Dec(Suite):
             if "shas" not in c:
                 continue
             r = impl.get(c["id"])
-            got = (r.get("extra") or {}).get("dump", r["out"]) if r else "<no reply>"
+            ex = (r.get("extra") or {}) if r else {}
+            got = ex.get("dump", " ".join(ex["dumps"]) if "dumps" in ex else r["out"]) if r else "<no reply>"
             par, times, shas = c["par"], c["times"], c["shas"]
             g1, g2 = D.gen_numbers(par, times)
             ents = [{"hash": shas[i], "tree": D.EMPTY_TREE, "parents": [shas[p] for p in par[i]], "gen": g1[i], "gen2": g2[i],
@@ -285,18 +320,79 @@ class Dec(Suite):
                 if got != exp:
                     fails[c["id"]] = "git-written commit-graph read differently from the commit objects: %s vs %s" % (got[:300], exp[:300])
             else:
-                # chain: every layer dumps its own commits; parent indexes are global positions
-                toks = got
-                for e in ents:
-                    frag = "x%s (" % e["tree"]
-                for e in ents:
-                    need = "(%s ) %d %d %d )" % ("".join(" x" + p for p in e["parents"]), e["gen"], e["gen2"], e["when"])
-                    if need not in toks:
-                        fails[c["id"]] = "split commit-graph: commit %s not read back as derived (%s) in %s" % (e["hash"][:8], need[:120], got[:300])
-                        break
-                if "( err" in got and c["id"] not in fails:
-                    fails[c["id"]] = "split commit-graph: reader error in %s" % got[:300]
+                # chain: layer j holds the commits first reachable from shas[:cuts[j]] (topological numbering: nodes
+                # cuts[j-1]..cuts[j]-1) in id order; positions are global (base of the layer + rank in the layer)
+                exp = chain_expected(ents, c["cuts"])
+                if got != exp:
+                    fails[c["id"]] = "split commit-graph read differently from the commit objects: %s vs %s" % (got[:400], exp[:400])
         return fails
+
+    def extra(self, ctx, cases, impl, model):
+        return spec_vs_git(ctx, cases)
+
+
+def chain_expected(ents, cuts):
+    pos, layers, base, lo = {}, [], 0, 0
+    for hi in cuts:
+        hs = sorted(ents[i]["hash"] for i in range(lo, hi))
+        for r, h in enumerate(hs):
+            pos[h] = base + r
+        layers.append(hs)
+        base += len(hs)
+        lo = hi
+    by = {e["hash"]: e for e in ents}
+    outs = []
+    for hs in layers:
+        cds = "".join(" ( x%s (%s ) (%s ) %d %d %d )" % (by[h]["tree"], "".join(" %d" % pos[p] for p in by[h]["parents"]),
+                                                        "".join(" x" + p for p in by[h]["parents"]), by[h]["gen"], by[h]["gen2"],
+                                                        by[h]["when"]) for h in hs)
+        outs.append("( ok true %d (%s ) (%s ) )" % (len(hs), cds, "".join(" ( x%s %d )" % (h, pos[h]) for h in hs)))
+    return " ".join(outs)
+
+
+def parse_git_graph(data):
+    """independent reader of a single commit-graph file written by git: id -> (level, corrected commit date)"""
+    import struct
+    assert data[:4] == b"CGPH" and data[4] == 1 and data[5] == 1
+    nch = data[6]
+    toc = [(data[8 + 12 * i: 12 + 12 * i], struct.unpack(">Q", data[12 + 12 * i: 20 + 12 * i])[0]) for i in range(nch + 1)]
+    ch = {toc[i][0]: (toc[i][1], toc[i + 1][1]) for i in range(nch)}
+    n = struct.unpack(">I", data[ch[b"OIDF"][0] + 1020: ch[b"OIDF"][0] + 1024])[0]
+    out = {}
+    for i in range(n):
+        h = data[ch[b"OIDL"][0] + 20 * i: ch[b"OIDL"][0] + 20 * i + 20].hex()
+        gt = struct.unpack(">Q", data[ch[b"CDAT"][0] + 36 * i + 28: ch[b"CDAT"][0] + 36 * i + 36])[0]
+        level, t = gt >> 34, gt & ((1 << 34) - 1)
+        d = struct.unpack(">I", data[ch[b"GDA2"][0] + 4 * i: ch[b"GDA2"][0] + 4 * i + 4])[0]
+        if d & 0x80000000:
+            d = struct.unpack(">Q", data[ch[b"GDO2"][0] + 8 * (d & 0x7fffffff): ch[b"GDO2"][0] + 8 * (d & 0x7fffffff) + 8])[0]
+        out[h] = (level, t + d)
+    return out
+
+
+def unrle(runs):
+    return b"".join(bytes.fromhex(w) * n for n, w in runs)
+
+
+def spec_vs_git(ctx, cases):
+    """S (Spec/Dag.generation, Spec/DagGen2.corrected_date, evaluated in Coq) against the numbers git wrote"""
+    sel = [c for c in cases if c.get("op") == "decode" and "shas" in c]
+    if not sel:
+        return {}
+    outs = ctx.coq_eval("From GoGit Require Import Spec.Dag Spec.DagGen2.", ["c51_spec %s" % D.coq_dag(c["par"], c["times"]) for c in sel])
+    bad, slots = [], 0
+    for c, o in zip(sel, outs):
+        try:
+            got = parse_git_graph(unrle(c["file"]))
+            want = "( " + " ".join("( %d %d )" % got[h] for h in c["shas"]) + " )"
+        except Exception as e:          # git wrote a file without generation data etc.: not comparable
+            want = "unparsed: %r" % e
+        if o != want:
+            bad.append({"par": c["par"], "times": c["times"], "spec": o, "git": want})
+        slots = max(slots, sum(1 for h in c["shas"] if got[h][1] - c["times"][c["shas"].index(h)] >= 2**31) if not want.startswith("unparsed") else 0)
+    if bad:
+        ctx.notes.append("SPEC MISMATCH (machinery fault): Spec/Dag generation numbers differ from git's on %d histories" % len(bad))
+    return {"spec_vs_git_cases": len(sel), "spec_mismatches": bad[:5], "max_overflow_slots_in_a_git_file": slots}
 
 
 SUITES = [Enc(), Dec()]
